@@ -105,7 +105,12 @@ def run(prog, rep, tier):
                 names = callee_names(t)
                 if any(re.search(r"Vec::<T, A>::push$", n) for n in names) and "[u8" in t["f"].get("ga", ""):
                     e = Renderer(b, depth=10, through_names=True).operand(t["args"][1], 10)
-                    toks.add("push:" + ("mask" if ("mask" in expr_fields(e) or "mask" in expr_vars(e) or "m" in expr_vars(e)) else show(e, 30)))
+                    # the trailing key byte is a prefix length: the net's mask (also as the third field of the
+                    # destructured (family, bytes, mask) tuple) or a length iterated over 0..=mask
+                    txt = show(e, 400)
+                    is_len = "mask" in expr_fields(e) or "mask" in expr_vars(e) or "m" in expr_vars(e) or re.fullmatch(r"_\d+\.2", txt) \
+                        or ("Iterator::next" in txt and re.search(r"RangeInclusive::(<\w+>::)?new\(0, (mask|_\d+\.2)\)", txt))
+                    toks.add("push:" + ("prefix-length" if is_len else show(e, 30)))
                 if any(re.search(r"::octets$", n) for n in names):
                     toks.add("octets")
         schemes[m] = toks
